@@ -15,4 +15,13 @@ CLAIMED = {
     },
 }
 
+CLAIMED['C13'] = {
+    'category': 'proof',
+    'text': 'Two-program equivalence through common spec functions: the JS classification block (parsed from spending_report.js on '
+            'every run by a JS-subset front end) and the Python functions are both symbolically executed and every VC is discharged, '
+            'for all amounts and tag lists; node-vs-CPython differential run and exhaustive lower-casing comparison are labelled extras.',
+    'level_note': _BASE_NOTE + ' Additionally trusted: the JS-subset front end and its translation table (A11).',
+    'technique': 'contract-based deductive verification of both programs against shared spec functions (self-generated VCs, z3/cvc5) + bounded differential oracle',
+}
+
 NOT_APPLICABLE = {}
